@@ -186,9 +186,11 @@ SKELS = [
     ['if', ' x', ':', '\n', '# c\n', 'y', '\n'],
     ['def', ' a', '(', ')', ':', ' pass', '\n', '\n', '# c\n', 'def', ' b', '(', ')', ':', ' pass', '\n'],
     ['x', ' =', ' 1', '  ', '# done'],
+    ['foo', ' bar', '\n', 'x', ' =', ' 1', '\n', 'y', '\n'],
     ['\ufeff', 'x', ' =', ' (', '1', ',', '\n', ' 2', ')', '\n', '\n', '\n', '\n', 'y', '=', '1'],
 ]
-_EXTRA = ['', 'a', '1', "'s'", '$', '\n', '\n    ', '\n  ', 'f"', '"', "'", '"""', '\\\n', '#c\n', '?', '1.', '0x', 'é', '²']
+_EXTRA = ['', 'a', '1', "'s'", '$', '\n', '\n    ', '\n  ', 'f"', "f'", '"', "'", '"""', '\\\n', '#c\n', '?', '1.', '0x', 'é', '²',
+          'a²', "br'a\\\nb'", '\n\xa0\n', 'l', '\x0c', '\r']
 
 
 def labels(vi):
@@ -200,8 +202,11 @@ def pipe_label(k: int, pos: int, j: int, replace: bool, vi: int) -> bool:
     """
     require: 0 <= k < len(SKELS) and 0 <= vi < 9 and 0 <= pos <= len(SKELS[k]) and 0 <= j < 130
     """
-    from crosshair.tracers import NoTracing
-    from crosshair.core import realize
+    try:
+        from crosshair.tracers import NoTracing
+        from crosshair.core import realize
+    except ImportError:          # plain replay
+        return _label_native(k, pos, j, replace, vi)
     k, pos, j, replace, vi = realize(k), realize(pos), realize(j), realize(replace), realize(vi)
     with NoTracing():
         return _label_native(k, pos, j, replace, vi)
@@ -232,8 +237,11 @@ def pipe_label2(k: int, pos: int, j1: int, j2: int, vi: int) -> bool:
     """
     require: 0 <= k < len(SKELS) and 0 <= vi < 9 and 0 <= pos <= len(SKELS[k]) and 0 <= j1 < 130 and 0 <= j2 < 130
     """
-    from crosshair.tracers import NoTracing
-    from crosshair.core import realize
+    try:
+        from crosshair.tracers import NoTracing
+        from crosshair.core import realize
+    except ImportError:
+        return _label2_native(k, pos, j1, j2, vi)
     k, pos, j1, j2, vi = realize(k), realize(pos), realize(j1), realize(j2), realize(vi)
     with NoTracing():
         return _label2_native(k, pos, j1, j2, vi)
@@ -392,23 +400,23 @@ def pipe_bytes(k: int, bom: bool, b1: int, at: int) -> bool:
 
 # -------------------------------------------------------------------------------------------------
 # refactoring is an exact text splice (C19): concrete trees, symbolic replacement strings
-_RTEXTS = ['def f(a, b=1):\n    return a + b  # c\n', 'x = [1,\n 2]\nclass C: pass\n', 'if x:\n  y = f"{a!r}"\nelse: $\n']
-_RTREES = [grammar(4).parse(t) for t in _RTEXTS]
-_RNODES = [TO.nodes(m) for m in _RTREES]
+RTEXTS = ['def f(a, b=1):\n    return a + b  # c\n', 'x = [1,\n 2]\nclass C: pass\n', 'if x:\n  y = f"{a!r}"\nelse: $\n']
+RTREES = [grammar(4).parse(t) for t in RTEXTS]
+RNODES = [TO.nodes(m) for m in RTREES]
 
 
 def pipe_refactor(t: int, i: int, j: int, c1: int, c2: int, n2: int) -> bool:
     """
-    require: 0 <= t < len(_RTEXTS) and 0 <= i < 64 and 0 <= j < 64 and 0 <= n2 <= 1
+    require: 0 <= t < len(RTEXTS) and 0 <= i < 64 and 0 <= j < 64 and 0 <= n2 <= 1
     require: 0 <= c1 < 0x110000 and 0 <= c2 < 0x110000 and not (0xD800 <= c1 <= 0xDFFF) and not (0xD800 <= c2 <= 0xDFFF)
     """
-    N = _RNODES[t]
+    N = RNODES[t]
     if i >= len(N) or j >= len(N):
         return True
     a, b = N[i], N[j]
-    text = _RTEXTS[t]
+    text = RTEXTS[t]
     g = grammar(4)
-    ls = TO.leaves(_RTREES[t])
+    ls = TO.leaves(RTREES[t])
     off = {}
     o = 0
     for l in ls:
@@ -426,12 +434,12 @@ def pipe_refactor(t: int, i: int, j: int, c1: int, c2: int, n2: int) -> bool:
         return False
     if sa[1] <= sb[0] and not inside(a, b) and not inside(b, a):      # disjoint, a before b: both replaced
         want = text[:sa[0]] + r1 + text[sa[1]:sb[0]] + r2 + text[sb[1]:]
-        got = g.refactor(_RTREES[t], {a: r1, b: r2})
+        got = g.refactor(RTREES[t], {a: r1, b: r2})
     else:
         want = text[:sa[0]] + r1 + text[sa[1]:]
-        got = g.refactor(_RTREES[t], {a: r1})
+        got = g.refactor(RTREES[t], {a: r1})
     if got != want:
         return _no('c19: refactor gives %r, exact splice is %r' % (got, want))
-    if g.refactor(_RTREES[t], {}) != text:
+    if g.refactor(RTREES[t], {}) != text:
         return _no('c19: refactor with an empty map changed the code')
     return True
